@@ -273,7 +273,7 @@ class IdentityLinearOperator(ConstantDiagLinearOperator):
         new_kwargs = {}
         for arg in self._args:
             if hasattr(arg, "to"):
-                if hasattr(arg, "dtype") and arg.dtype.is_floating_point == dtype.is_floating_point:
+                if dtype is None or (hasattr(arg, "dtype") and arg.dtype.is_floating_point == dtype.is_floating_point):
                     new_args.append(arg.to(dtype=dtype, device=device))
                 else:
                     new_args.append(arg.to(device=device))
@@ -284,6 +284,6 @@ class IdentityLinearOperator(ConstantDiagLinearOperator):
                 new_kwargs[name] = val.to(dtype=dtype, device=device)
             else:
                 new_kwargs[name] = val
-        new_kwargs["device"] = device
-        new_kwargs["dtype"] = dtype
+        new_kwargs["device"] = device if device is not None else self.device
+        new_kwargs["dtype"] = dtype if dtype is not None else self.dtype
         return self.__class__(*new_args, **new_kwargs)
